@@ -1,5 +1,6 @@
 import KrroodVerif.Sexp
 import KrroodVerif.Model.Descriptor
+import KrroodVerif.Model.DescriptorHalfBuilt
 /-!
 C15 driver. Case: `(h (fields (cls prop kind)…) (supers (p a…)…) (inv (p q)…) (trans p…) (objs (cls rt|-)…)
 (ops (set f s t) (add f s t) (assign f s x…) (ctor o (f x…)…)…))`.
@@ -75,6 +76,25 @@ def parseCtor (S : Schema) (o : Nat) (fs : List Sexp) : Option (List Op) :=
 def parseItem (S : Schema) : Sexp → Option (List Op)
   | .list (.atom "ctor" :: o :: fs) => do parseCtor S (← o.asNat?) fs
   | x => (parseOp x).map fun op => [op]
+
+/-- `(eqcls c…)` of the schema: the classes whose instances compare by value (eq-dataclasses); absent = none -/
+def parseEqCls (items : List Sexp) : List Nat :=
+  ((Sexp.field? items "eqcls").bind parseNats).getD []
+
+/-- F-C15-4 = F-C16-10 (inference compares an instance under construction by value) is OPEN in /repo: `true`.
+After `fixes/C16_half_built_instance.diff` is applied the lead sets this to `false`. -/
+def halfBuiltOpen : Bool := true
+
+/-- the constructor context of every operation `parseItem` yields for this history item (same length, same order):
+entry `j` of `(ctor o (f x…)…)` runs while the fields of the entries after it are still to come -/
+def halvesOfItem : Sexp → List (Option Half)
+  | .list (.atom "ctor" :: o :: fs) =>
+    match o.asNat? with
+    | some o =>
+      let fields := fs.map fun x => match x with | .list (f :: _) => (f.asNat?).getD 0 | _ => 0
+      (halvesOfCtor o fields).map some
+    | none => fs.map fun _ => none
+  | _ => [none]
 
 /-- F-C15-2 is repaired in /repo (`is not None` instead of truthiness): the gate is off; `before_fix=` shows the old
 behaviour -/
@@ -158,7 +178,14 @@ def run (s : Sexp) : String :=
         s!"model={m.1}\tspec={spec}\ttrig={",".intercalate trig}\tmodel_fixed={(out ops).1}"
       else
         let m := out ops
-        s!"model={m.1}\tspec={spec}\ttrig={if m.2 then "F-C15-3" else ""}\tbefore_fix={(out gated).1}"
+        -- F-C15-4: a constructor call of an eq-dataclass instance whose inference compares the half-built instance
+        let hitems := (((Sexp.field? items "ops").getD []).flatMap halvesOfItem).zip ops
+        let raised := (runModelH true S W (parseEqCls items) hitems).2
+        if raised && halfBuiltOpen then
+          s!"model=exc:AttributeError\tspec={spec}\ttrig=F-C15-4\tmodel_fixed={m.1}"
+        else
+          s!"model={m.1}\tspec={spec}\ttrig={if m.2 then "F-C15-3" else ""}\tbefore_fix={(out gated).1}" ++
+            (if raised then "\tbefore_half_built_fix=exc:AttributeError" else "")
     | none => "error=bad-case")
     | _, _ => "error=bad-case"
   | _ => "error=bad-case"
